@@ -98,6 +98,8 @@ def _head_fields(st):
         return [(st, 'exc')]
     if isinstance(st, ast.Assert):
         return [(st, 'test')]
+    if isinstance(st, (ast.For, ast.AsyncFor)):
+        return [(st, 'iter')]          # evaluated once, before the first iteration
     return []
 
 
@@ -244,10 +246,7 @@ def _pure_chain(e):
 def _inline_aliases(fn, rebound=None):
     '''N4: a = self.p.q at the top level of the function body, a bound exactly once, self.p.q never stored to in the
     function  ->  every read of a becomes self.p.q and the binding disappears.'''
-    if not (fn.args.args and fn.args.args[0].arg == 'self'):
-        if not any(isinstance(x, ast.Name) and x.id == 'self' for x in ast.walk(fn)):
-            return
-    for _round in range(4):
+    for _round in range(6):
         loads, stores, declared = _name_counts(fn)
         stored_paths = set()
         for x in ast.walk(fn):
@@ -255,8 +254,17 @@ def _inline_aliases(fn, rebound=None):
                 stored_paths.add(ast.unparse(x))
         done = False
         for k, st in enumerate(list(fn.body)):
-            if not (isinstance(st, ast.Assign) and len(st.targets) == 1 and isinstance(st.targets[0], ast.Name) and _pure_chain(st.value)):
+            if not (isinstance(st, ast.Assign) and len(st.targets) == 1 and isinstance(st.targets[0], ast.Name)):
                 continue
+            local_root = None
+            if not _pure_chain(st.value):
+                # a = x.m with x a local bound exactly once (or a parameter never re-bound): x.m is the same object for good
+                v_ = st.value
+                if isinstance(v_, ast.Attribute) and isinstance(v_.value, ast.Name) and v_.value.id != 'self' \
+                        and stores.get(v_.value.id, 0) == 1 and v_.value.id not in declared and v_.value.id != st.targets[0].id:
+                    local_root = v_.value.id
+                else:
+                    continue
             t = st.targets[0].id
             path = ast.unparse(st.value)
             if t in declared or stores.get(t, 0) != 1 or loads.get(t, 0) == 0:
@@ -276,6 +284,8 @@ def _inline_aliases(fn, rebound=None):
                 elif isinstance(x, ast.Call) and isinstance(x.func, ast.Name) and x.func.id in ('set', 'len', 'sorted', 'list') \
                         and any(isinstance(a_, ast.Name) and a_.id == t for a_ in x.args):
                     obj = True
+            if not obj and local_root is not None:
+                continue
             if not obj:
                 # a value alias is still exact when the field is configuration: assigned in __init__ only, never re-bound
                 first = path.split('.')[1]
@@ -363,13 +373,297 @@ def _split_tuple_assign(tree):
     return tree
 
 
+def _loops_to_comprehensions(fn):
+    """N11: an accumulate-only loop becomes the comprehension it spells out
+
+        xs = []                                   xs = [V for T in IT if C]
+        for T in IT:                      ->
+            [t = E | t, = E]*                     (loop temporaries substituted; `t, = E` reads as E[0])
+            [if C:] xs.append(V)
+
+    likewise set() / .add and {} / d[K] = V.  Only when xs is bound nowhere else, is not touched between its initialisation
+    and the loop, and neither the loop variables nor the temporaries are read outside the loop."""
+    loads, stores, declared = _name_counts(fn)
+
+    def loads_in(node, name):
+        return sum(1 for x in ast.walk(node) if isinstance(x, ast.Name) and x.id == name and isinstance(x.ctx, ast.Load))
+
+    def mentions(node, name):
+        return any(isinstance(x, ast.Name) and x.id == name for x in ast.walk(node))
+
+    def empty_kind(v):
+        if isinstance(v, ast.List) and not v.elts:
+            return 'list'
+        if isinstance(v, ast.Dict) and not v.keys:
+            return 'dict'
+        if isinstance(v, ast.Call) and isinstance(v.func, ast.Name) and not v.args and not v.keywords and v.func.id in ('list', 'set', 'dict'):
+            return v.func.id
+        return None
+
+    def convert(body, k):
+        lp = body[k]
+        if lp.orelse or not lp.body:
+            return False
+        if any(isinstance(x, (ast.Break, ast.Continue, ast.Return, ast.Yield, ast.YieldFrom, ast.Await, ast.NamedExpr,
+                              ast.FunctionDef, ast.AsyncFunctionDef, ast.Lambda)) for st in lp.body for x in ast.walk(st)):
+            return False
+        *temps, last = lp.body
+        cond = None
+        if isinstance(last, ast.If) and not last.orelse and len(last.body) == 1:
+            cond, last = last.test, last.body[0]
+        acc = kind = None
+        if isinstance(last, ast.Expr) and isinstance(last.value, ast.Call) and isinstance(last.value.func, ast.Attribute) \
+                and isinstance(last.value.func.value, ast.Name) and last.value.func.attr in ('append', 'add') \
+                and len(last.value.args) == 1 and not last.value.keywords and not isinstance(last.value.args[0], ast.Starred):
+            acc, kind = last.value.func.value.id, ('list' if last.value.func.attr == 'append' else 'set')
+            out = [last.value.args[0]]
+        elif isinstance(last, ast.Assign) and len(last.targets) == 1 and isinstance(last.targets[0], ast.Subscript) \
+                and isinstance(last.targets[0].value, ast.Name):
+            acc, kind = last.targets[0].value.id, 'dict'
+            out = [last.targets[0].slice, last.value]
+        else:
+            return False
+        if acc in declared or stores.get(acc, 0) != 1:
+            return False
+        # the initialisation: same statement list, nothing in between touches the accumulator
+        j = k - 1
+        while j >= 0 and not mentions(body[j], acc):
+            j -= 1
+        if j < 0:
+            return False
+        init = body[j]
+        if not (isinstance(init, ast.Assign) and len(init.targets) == 1 and isinstance(init.targets[0], ast.Name)
+                and init.targets[0].id == acc and empty_kind(init.value) == kind):
+            return False
+        if mentions(lp.iter, acc) or (cond is not None and mentions(cond, acc)) or any(mentions(o, acc) for o in out):
+            return False
+        # loop temporaries
+        exprs = ([cond] if cond is not None else []) + out
+        binds = []
+        for t in temps:
+            if not (isinstance(t, ast.Assign) and len(t.targets) == 1):
+                return False
+            tg = t.targets[0]
+            if isinstance(tg, ast.Name):
+                binds.append((tg.id, t.value))
+            elif isinstance(tg, ast.Tuple) and len(tg.elts) == 1 and isinstance(tg.elts[0], ast.Name):
+                binds.append((tg.elts[0].id, ast.Subscript(value=t.value, slice=ast.Constant(value=0), ctx=ast.Load())))
+            else:
+                return False
+            if mentions(t.value, acc):
+                return False
+        names = [b[0] for b in binds]
+        if len(set(names)) != len(names):
+            return False
+        tvars = {x.id for x in ast.walk(lp.target) if isinstance(x, ast.Name)}
+        for nm in set(names) | tvars:
+            if nm in declared:
+                return False
+            outside = loads.get(nm, 0) - loads_in(lp, nm)
+            if outside:
+                # reads under another loop that binds the name itself never see this loop's value
+                covered = 0
+                for other in _own_walk(fn):
+                    if isinstance(other, (ast.For, ast.AsyncFor)) and other is not lp and not any(o2 is other for o2 in ast.walk(lp)) \
+                            and any(isinstance(x, ast.Name) and x.id == nm for x in ast.walk(other.target)):
+                        covered += sum(loads_in(st_, nm) for st_ in other.body)
+                if covered != outside:
+                    return False      # read outside the loop
+        for nm in names:
+            if stores.get(nm, 0) != 1:
+                return False
+        # substitute backwards: later temporaries may use earlier ones
+        for idx in range(len(binds) - 1, -1, -1):
+            nm, e = binds[idx]
+            uses = sum(loads_in(x, nm) for x in exprs)      # later temporaries are already folded into exprs
+            if uses == 0:
+                if any(isinstance(x, ast.Call) for x in ast.walk(e)):
+                    return False
+                continue
+            if uses > 1 and any(isinstance(x, (ast.Call,)) for x in ast.walk(e)):
+                return False
+            sub = _SubstMany({}, {nm: e})
+            exprs = [sub.visit(x) for x in exprs]
+        if cond is not None:
+            cond, out = exprs[0], exprs[1:]
+        else:
+            out = exprs
+        gen = ast.comprehension(target=lp.target, iter=lp.iter, ifs=[cond] if cond is not None else [], is_async=0)
+        if kind == 'list':
+            comp = ast.ListComp(elt=out[0], generators=[gen])
+        elif kind == 'set':
+            comp = ast.SetComp(elt=out[0], generators=[gen])
+        else:
+            comp = ast.DictComp(key=out[0], value=out[1], generators=[gen])
+        new = ast.Assign(targets=[ast.Name(id=acc, ctx=ast.Store())], value=comp)
+        for x in ast.walk(new):
+            if isinstance(x, (ast.stmt, ast.expr)) and not hasattr(x, 'lineno'):
+                ast.copy_location(x, lp)
+        ast.copy_location(new, lp)
+        body[k] = new
+        del body[j]
+        return True
+
+    changed = False
+    for parent in [fn] + [n for n in _own_walk(fn) if not isinstance(n, (ast.FunctionDef, ast.AsyncFunctionDef, ast.ClassDef, ast.Lambda))]:
+        for fld in ('body', 'orelse', 'finalbody'):
+            body = getattr(parent, fld, None)
+            if not (isinstance(body, list) and body and isinstance(body[0], ast.stmt)):
+                continue
+            k = 0
+            while k < len(body):
+                if isinstance(body[k], ast.For) and convert(body, k):
+                    changed = True
+                    loads, stores, declared = _name_counts(fn)
+                    k = 0
+                    continue
+                k += 1
+    return changed
+
+
+def _not(e):
+    """logical negation of a test, without stacking `not not`"""
+    if isinstance(e, ast.UnaryOp) and isinstance(e.op, ast.Not):
+        return e.operand
+    flip = {ast.Is: ast.IsNot, ast.IsNot: ast.Is, ast.Eq: ast.NotEq, ast.NotEq: ast.Eq, ast.In: ast.NotIn, ast.NotIn: ast.In}
+    if isinstance(e, ast.Compare) and len(e.ops) == 1 and type(e.ops[0]) in flip:
+        return ast.copy_location(ast.Compare(left=e.left, ops=[flip[type(e.ops[0])]()], comparators=e.comparators), e)
+    return ast.copy_location(ast.UnaryOp(op=ast.Not(), operand=e), e)
+
+
+def _ends_in_jump(body):
+    return bool(body) and isinstance(body[-1], (ast.Return, ast.Raise, ast.Continue, ast.Break))
+
+
+def _guard_form(tree):
+    """N12: guard clauses are the canonical spelling of an early way out
+
+        if c: A... ; <jump>                 if c: A... ; <jump>
+        else: B...                  ->      B...
+
+        for ...:                            for ...:
+            S...                                S...
+            if c:                   ->          if not c: continue
+                B1; B2...                       B1; B2...
+
+        def f():                            def f():
+            S...                                S...
+            if c:                   ->          if not c: return [X]
+                B1; B2...                       B1; B2...
+            [return X]                          [return X]
+
+    (the last two only for a body of two or more statements: a one-statement `if` is not an inverted guard).
+    X must be a name or a constant the body does not bind."""
+    def fix(body, tail):
+        """tail: None | 'loop' | 'func'  - what falling off the end of this statement list means"""
+        k = 0
+        while k < len(body):
+            st = body[k]
+            if isinstance(st, ast.If):
+                if st.orelse and _ends_in_jump(st.body) and not (len(st.orelse) == 1 and isinstance(st.orelse[0], ast.If) and False):
+                    rest = st.orelse
+                    st.orelse = []
+                    body[k + 1:k + 1] = rest
+                    continue
+                last = k == len(body) - 1
+                if not st.orelse and len(st.body) >= 2 and not _ends_in_jump(st.body):
+                    if tail == 'loop' and last:
+                        g = ast.copy_location(ast.If(test=_not(st.test), body=[ast.copy_location(ast.Continue(), st)], orelse=[]), st)
+                        body[k:k + 1] = [g] + st.body
+                        continue
+                    if tail == 'func' and (last or (k == len(body) - 2 and isinstance(body[-1], ast.Return)
+                                                    and (body[-1].value is None or isinstance(body[-1].value, (ast.Name, ast.Constant))))):
+                        rv = None if last else body[-1].value
+                        bound = {x.id for s_ in st.body for x in ast.walk(s_) if isinstance(x, ast.Name) and isinstance(x.ctx, (ast.Store, ast.Del))}
+                        if not (isinstance(rv, ast.Name) and rv.id in bound):
+                            ret = ast.copy_location(ast.Return(value=fast_copy(rv) if rv is not None else None), st)
+                            g = ast.copy_location(ast.If(test=_not(st.test), body=[ret], orelse=[]), st)
+                            body[k:k + 1] = [g] + st.body
+                            continue
+            k += 1
+        for k, st in enumerate(body):
+            lastp = k == len(body) - 1
+            if isinstance(st, (ast.FunctionDef, ast.AsyncFunctionDef)):
+                if not any(isinstance(x, (ast.Yield, ast.YieldFrom)) for x in _own_walk(st)):
+                    fix(st.body, 'func')
+                else:
+                    fix(st.body, None)
+            elif isinstance(st, ast.ClassDef):
+                fix(st.body, None)
+            elif isinstance(st, (ast.For, ast.AsyncFor, ast.While)):
+                fix(st.body, 'loop')
+                fix(st.orelse, None)
+            elif isinstance(st, ast.If):
+                fix(st.body, tail if lastp else None)
+                fix(st.orelse, tail if lastp else None)
+            elif isinstance(st, (ast.With, ast.AsyncWith)):
+                fix(st.body, tail if lastp and tail == 'func' else None)
+            elif isinstance(st, ast.Try):
+                fix(st.body, None)
+                for h in st.handlers:
+                    fix(h.body, None)
+                fix(st.orelse, None)
+                fix(st.finalbody, None)
+    fix(tree.body, None)
+    return tree
+
+
+def _copy_prop(fn):
+    """N13: x = y with x and y plain locals each bound exactly once: every read of x is a read of y.  (What inlining a
+    helper leaves behind for its result, and what `result = value; ...; return result` spells.)"""
+    for _round in range(6):
+        loads, stores, declared = _name_counts(fn)
+        done = False
+        for parent in [fn] + [n for n in _own_walk(fn) if not isinstance(n, (ast.FunctionDef, ast.AsyncFunctionDef, ast.ClassDef, ast.Lambda))]:
+            for fld in ('body', 'orelse', 'finalbody'):
+                body = getattr(parent, fld, None)
+                if not (isinstance(body, list) and body and isinstance(body[0], ast.stmt)):
+                    continue
+                for st in body:
+                    if not (isinstance(st, ast.Assign) and len(st.targets) == 1 and isinstance(st.targets[0], ast.Name)
+                            and isinstance(st.value, ast.Name)):
+                        continue
+                    x, y = st.targets[0].id, st.value.id
+                    if x == y or x in declared or y in declared or stores.get(x, 0) != 1 or stores.get(y, 0) != 1 or y == 'self':
+                        continue
+                    if '__' not in x and '__' not in y:
+                        continue        # only names the inliner made: a maintainer's own `a = b` may be a deliberate snapshot
+                    body.remove(st)
+                    if not body:
+                        body.append(ast.copy_location(ast.Pass(), st))
+
+                    class R(ast.NodeTransformer):
+                        def visit_Name(self, n):
+                            if n.id == x and isinstance(n.ctx, ast.Load):
+                                return ast.copy_location(ast.Name(id=y, ctx=ast.Load()), n)
+                            return n
+
+                        def _scope(self, n):
+                            if n is not fn and (x in _bound_in(n) or y in _bound_in(n)):
+                                return n
+                            return self.generic_visit(n)
+                        visit_FunctionDef = visit_AsyncFunctionDef = visit_Lambda = _scope
+                    R().generic_visit(fn)
+                    done = True
+                    break
+                if done:
+                    break
+            if done:
+                break
+        if not done:
+            break
+
+
 def normalize(tree, relpath=None):
     _unannotate(tree)
     _split_tuple_assign(tree)
     if relpath is not None and not os.environ.get('VERIF_NO_REFNORM'):
         _inline_new_constants(tree, relpath)
         _inline_new_helpers(tree, relpath)
+        _split_tuple_assign(tree)
     _fold_constants(tree)
+    if not os.environ.get('VERIF_NO_N12'):
+        _guard_form(tree)
     _unnegate(tree)
     _reaug(tree)
     for cls in [c for c in ast.walk(tree) if isinstance(c, ast.ClassDef)]:
@@ -400,6 +694,12 @@ def normalize(tree, relpath=None):
                 inited = getattr(n, '_verif_inited', set())
                 rb = set(rb) | {a for a in _self_attrs(n) if a not in inited}
             _inline_aliases(n, rb)
+    for n in ast.walk(tree):
+        if isinstance(n, (ast.FunctionDef, ast.AsyncFunctionDef)):
+            _copy_prop(n)
+    for n in ast.walk(tree):
+        if isinstance(n, (ast.FunctionDef, ast.AsyncFunctionDef)) and not os.environ.get('VERIF_NO_N11'):
+            _loops_to_comprehensions(n)
     for n in ast.walk(tree):
         if isinstance(n, (ast.FunctionDef, ast.AsyncFunctionDef)):
             _propagate(n)
@@ -659,8 +959,6 @@ class _ReplaceNode(ast.NodeTransformer):
 
 
 def _stmt_heads(st):
-    if isinstance(st, (ast.For, ast.AsyncFor)):
-        return [(st, 'iter')]
     return _head_fields(st)
 
 
@@ -671,10 +969,10 @@ def _inline_new_helpers(tree, relpath):
     known = set(ref.get(relpath, {}).get('functions', []))
     helpers = {}     # ('Class' or '', name) -> FunctionDef
 
-    def collect(body, cls):
-        for n in body:
+    def collect(owner, cls):
+        for n in owner.body:
             if isinstance(n, ast.ClassDef):
-                collect(n.body, n.name)
+                collect(n, n.name)
             elif isinstance(n, (ast.FunctionDef, ast.AsyncFunctionDef)):
                 q_ = (cls + '.' if cls else '') + n.name
                 decos = [ast.unparse(d_) for d_ in n.decorator_list]
@@ -689,9 +987,9 @@ def _inline_new_helpers(tree, relpath):
                         h_._verif_static = 'staticmethod' in decos
                         h_._verif_classm = 'classmethod' in decos
                         h_._verif_orig = n
-                        h_._verif_owner = body
+                        h_._verif_owner = owner
                         helpers[(cls, n.name)] = h_
-    collect(tree.body, '')
+    collect(tree, '')
     if not helpers:
         return
     counter = [0]
@@ -736,9 +1034,14 @@ def _inline_new_helpers(tree, relpath):
                 di = i - (npos - len(defaults))
                 if not (0 <= di < len(defaults)):
                     return None
+                # a default is evaluated once, when the function is defined: only a literal means the same at the call
+                if not isinstance(defaults[di], ast.Constant):
+                    return None
                 v = fast_copy(defaults[di])
             out.append((p, v))
         for p, d in zip(kwonly, h.args.kw_defaults):
+            if p not in kw and not isinstance(d, ast.Constant):
+                return None
             v = kw.get(p, fast_copy(d) if d is not None else None)
             if v is None:
                 return None
@@ -869,6 +1172,30 @@ def _inline_new_helpers(tree, relpath):
                             ast.copy_location(x, n)
                     sub = expand(st, cls, depth + 1)
                     return sub if sub is not None else [st]
+        # 1b. [h(x) for x in xs] where h has statements: spelled out as the loop it abbreviates, then inlined
+        if isinstance(st, (ast.Assign, ast.Return)) and isinstance(st.value, ast.ListComp) and len(st.value.generators) == 1 \
+                and not st.value.generators[0].is_async:
+            lc = st.value
+            hs = [n for n in ast.walk(lc.elt) if isinstance(n, ast.Call) and helper_of(n, cls) is not None]
+            if hs and not any(isinstance(x, (ast.ListComp, ast.SetComp, ast.DictComp, ast.GeneratorExp, ast.Lambda)) for x in ast.walk(lc.elt)):
+                counter[0] += 1
+                acc = f'acc__{counter[0]}'
+                g = lc.generators[0]
+                app = ast.Expr(value=ast.Call(func=ast.Attribute(value=ast.Name(id=acc, ctx=ast.Load()), attr='append', ctx=ast.Load()),
+                                              args=[lc.elt], keywords=[]))
+                inner = [app]
+                for c in reversed(g.ifs):
+                    inner = [ast.If(test=c, body=inner, orelse=[])]
+                loop = ast.For(target=g.target, iter=g.iter, body=inner, orelse=[])
+                init = ast.Assign(targets=[ast.Name(id=acc, ctx=ast.Store())], value=ast.List(elts=[], ctx=ast.Load()))
+                st.value = ast.Name(id=acc, ctx=ast.Load())
+                for s_ in (init, loop):
+                    for x in ast.walk(s_):
+                        if isinstance(x, (ast.stmt, ast.expr)) and not hasattr(x, 'lineno'):
+                            ast.copy_location(x, st)
+                ast.copy_location(st.value, st)
+                rewrite(loop, cls)
+                return [init, loop, st]
         # 2. helpers with statements: hoisted in front of the statement when the call is the first thing the statement does
         for k, (n, cond) in enumerate(order):
             if not isinstance(n, ast.Call):
@@ -948,7 +1275,7 @@ def _inline_new_helpers(tree, relpath):
             if (isinstance(x, ast.Attribute) and x.attr == name) or (isinstance(x, ast.Name) and x.id == name):
                 used = True
                 break
-        if not used and orig in h._verif_owner:
-            h._verif_owner.remove(orig)
-            if not h._verif_owner:
-                h._verif_owner.append(ast.copy_location(ast.Pass(), orig))
+        if not used and orig in h._verif_owner.body:
+            h._verif_owner.body.remove(orig)
+            if not h._verif_owner.body:
+                h._verif_owner.body.append(ast.copy_location(ast.Pass(), orig))
